@@ -28,7 +28,7 @@ LEVEL = "exploration"
 RULE = (
     "A base shape (polygon, cubic or quadratic blob, ellipse, ring) and 1-4 copies of it under drawn isometries (translation inside the em, "
     "rotation by any angle, reflection about any axis), emitted in direct normal form with >= 6 decimals, spread over 1-3 glyphs that share "
-    "one viewBox (>= 24 units; a quarter of the cases 4-6 glyphs with 1-2 further shapes that recur in 2-3 glyphs each, so that the groups of glyphs "
+    "one viewBox or, in a third of the multi-glyph cases, viewBoxes of the same height with different origins and widths (>= 24 units; a quarter of the cases 4-6 glyphs with 1-2 further shapes that recur in 2-3 glyphs each, so that the groups of glyphs "
     "sharing something overlap and chain), mixed with unrelated shapes, with solid or gradient fills, reuse_tolerance in {0.1, 0.5, 2} and formats "
     "{glyf_colr_0, glyf_colr_1, picosvg}. Oracle (read back from the binary): every member of the family draws the same stored outline "
     "(COLR: one outline glyph after resolving COLRv0 composite layer glyphs; picosvg: one <path>, all other members <use> it); with "
@@ -157,6 +157,22 @@ def family_case(draw, tier):
             cm = transform_cmds(other, achain(scale(size * 0.7, size * 0.4), translate(vb[0] + vb[2] / 2, vb[1] + vb[3] / 2)))
             nodes.append({"t": "p", "d": cm, "fill": {"k": "solid", "c": "#123456"}, "op": 1.0, "tag": "other"})
         sources.append({"model": {"vb": vb, "nodes": nodes}, "cps": [0xE000 + gi]})
+    if nglyph >= 2 and draw(st.sampled_from([False, False, True])):
+        # glyphs with viewBoxes of their own: same height (hence the same scale), another origin and another width. The artwork of a
+        # glyph moves with its origin, so copies stay congruent in source units and in font units alike
+        for gi in range(1, nglyph):
+            if draw(st.booleans()):
+                ox, oy = round(draw(st.floats(-0.5, 0.5)) * vb[2], 2), round(draw(st.floats(-0.5, 0.5)) * vb[3], 2)
+                wide = draw(st.sampled_from([1.0, 1.0, 1.5, 2.0]))
+                mdl = sources[gi]["model"]
+                sh = translate(ox, oy)
+                for n in mdl["nodes"]:
+                    n["d"] = transform_cmds(n["d"], sh)
+                    if "m" in n:
+                        n["m"] = [float(x) for x in amul(sh, tuple(n["m"]))]
+                    if n["fill"]["k"] != "solid" and n["fill"]["units"] == "user":
+                        n["fill"] = {"k": "solid", "c": "#5577aa"}  # userSpaceOnUse geometry would have to move too: keep it simple
+                mdl["vb"] = [vb[0] + ox, vb[1] + oy, vb[2] * wide, vb[3]]
     return {"cfg": cfg, "sources": sources}
 
 
@@ -218,6 +234,7 @@ def _classify_miss(case, cfg):
 
     tol = cfg["reuse_tolerance"]
     keys = []
+    alt_keys = {}
     paths = []
     knife = False
     for s in case["sources"]:
@@ -233,6 +250,13 @@ def _classify_miss(case, cfg):
                 fp = SVGPath(d=shp.as_path().d).apply_transform(Affine2D(*m))
                 paths.append(fp)
                 keys.append(normalize(SVGPath(d=fp.d), tol / 10).d)
+                # the same outline in the other spellings the tool may hand to picosvg (the source's own path string, 3 decimals):
+                # a symmetric shape's normal form flips with the last digit, so keys are compared per spelling
+                try:
+                    alt_keys.setdefault("raw", []).append(normalize(SVGPath(d=shp.as_path().d).apply_transform(Affine2D(*m)) if m != I else SVGPath(d=shp.as_path().d), tol / 10).d)
+                    alt_keys.setdefault("r3", []).append(normalize(SVGPath(d=fp.round_floats(3).d), tol / 10).d)
+                except Exception:
+                    pass
                 # the same normal form before it is snapped to the grid: a coordinate within 1e-3 grid steps of a rounding
                 # boundary (x.5 steps) is snapped either way by float noise in the last digit of the path string, so the keys
                 # nanoemoji sees can differ although this replica's happen to agree
@@ -241,7 +265,7 @@ def _classify_miss(case, cfg):
                     q = float(num) / (tol / 10)
                     if abs(abs(q - math.floor(q)) - 0.5) < 1e-3:
                         knife = True
-    if len(set(keys)) > 1 or knife:
+    if len(set(keys)) > 1 or knife or any(len(set(ks)) > 1 for ks in alt_keys.values()):
         return "normalisation-key-differs"
     for p in paths[1:]:
         if affine_between(SVGPath(d=paths[0].d), SVGPath(d=p.d), tol) is None:
@@ -303,12 +327,15 @@ def judge(case):
         from ..geom import ainv
         from ..ref_svg import em_transform
 
-        F = I if cfg["color_format"].startswith("picosvg") else em_transform(tuple(vb), cfg["ascender"], cfg["descender"], cfg["width"])[0]
+        def to_font(v_):
+            return I if cfg["color_format"].startswith("picosvg") else em_transform(tuple(v_), cfg["ascender"], cfg["descender"], cfg["width"])[0]
+
+        fam_f = [(p, to_font(s_["model"]["vb"])) for s_ in case["sources"] for p in model_paths(s_["model"]) if p["tag"].startswith("fam:")]
         worst = 0.0
-        for a in fam:
-            for b in fam:
+        for a, Fa in fam_f:
+            for b, Fb in fam_f:
                 if a is not b:
-                    A = achain(ainv(F), ainv(tuple(a["m"])), tuple(b["m"]), F)
+                    A = achain(ainv(Fa), ainv(tuple(a["m"])), tuple(b["m"]), Fb)
                     worst = max(worst, max(abs(x) for x in A))
         v.extra["max_affine_entry"] = worst
         beyond = worst >= 32767.0
@@ -318,7 +345,7 @@ def judge(case):
     off = build.build_font(dict(cfg, reuse_tolerance=-1), srcs)
     if on.error is not None or off.error is not None:
         e = on.error or off.error
-        if on.error is not None and off.error is not None and type(on.error) is type(off.error):
+        if on.error is not None and off.error is not None:  # the input itself cannot be built (the two paths may notice it in different places)
             v.rejected = "both builds raise " + type(e).__name__  # e.g. gradient geometry beyond int16 at a large em scale
             return v
         v.fail("build-error", type(e).__name__, {"error": repr(e)[:300]})
